@@ -1,5 +1,5 @@
 //! C14: numeric operands N / +N / -N and -size rounding.
-//! Input (spec/Numeric.tla): {prim:"size"|"links"|"uid"|"gid"|"inum", unit, n:{v}|{huge:digits},
+//! Input (spec/Numeric.tla): {prim:"size"|"links"|"uid"|"gid"|"inum"|"mtime"|"atime"|"mmin"|"amin", unit, n:{v}|{huge:digits},
 //!   files:[{bytes}|{k,d}|{v}]}; observation {eq:[idx..], gt:[..], lt:[..]}
 use super::Prop;
 use crate::findrun::*;
@@ -19,6 +19,13 @@ impl Default for PNum {
     fn default() -> Self {
         PNum { sb: Sandbox::new("pnum"), counter: 0, cache: HashMap::new() }
     }
+}
+
+/// The clock injected for the time tests (seconds since the epoch; later than any status-change time of a fixture).
+const TIME_NOW: i64 = 2_000_000_000;
+
+fn is_time(prim: &str) -> bool {
+    matches!(prim, "mtime" | "atime" | "mmin" | "amin")
 }
 
 pub fn unit_bytes(u: &str) -> u64 {
@@ -71,6 +78,18 @@ impl PNum {
                 }
                 "uid" => chown(&p, f["v"].as_u64().unwrap_or(0) as u32, 0),
                 "gid" => chown(&p, 0, f["v"].as_u64().unwrap_or(0) as u32),
+                "mtime" | "atime" | "mmin" | "amin" => {
+                    // measured value v = whole periods between the timestamp and the injected clock; below zero: a
+                    // timestamp in the future.  The timestamp is put in the middle of its period.
+                    let period: i64 = if prim.ends_with("time") { 86400 } else { 60 };
+                    let v = f["v"].as_i64().unwrap_or(0);
+                    let t = TIME_NOW - v * period - period / 2;
+                    let far = TIME_NOW - 500 * 86400;
+                    let (a, m) = if prim.starts_with('a') { (t, far) } else { (far, t) };
+                    let c = std::ffi::CString::new(p.as_os_str().as_bytes()).unwrap();
+                    let ts = [libc::timespec { tv_sec: a, tv_nsec: 0 }, libc::timespec { tv_sec: m, tv_nsec: 0 }];
+                    unsafe { libc::utimensat(libc::AT_FDCWD, c.as_ptr(), ts.as_ptr(), 0) };
+                }
                 _ => {}
             }
         }
@@ -91,7 +110,8 @@ impl Prop for PNum {
         for (form, sign) in [("eq", ""), ("gt", "+"), ("lt", "-")] {
             let operand = format!("{}{}{}", sign, n, if prim == "size" { unit.as_str() } else { "" });
             let args: Vec<String> = vec!["R".into(), "-mindepth".into(), "1".into(), format!("-{}", prim), operand, "-print0".into()];
-            let r = run_find_inproc(&dir, &args, None, &errf);
+            let now = if is_time(&prim) { Some(std::time::UNIX_EPOCH + std::time::Duration::new(TIME_NOW as u64, 0)) } else { None };
+            let r = run_find_inproc(&dir, &args, now, &errf);
             if r.panicked {
                 return json!({"panic": true, "args": args});
             }
@@ -109,7 +129,7 @@ impl Prop for PNum {
     }
 
     fn gen(&mut self, rng: &mut Rng, _idx: usize, _tier: &str) -> Value {
-        let prim = *rng.pick(&["size", "size", "size", "links", "uid", "gid", "inum"]);
+        let prim = *rng.pick(&["size", "size", "size", "links", "uid", "gid", "inum", "mtime", "mmin", "atime", "amin"]);
         let nf = 3 + rng.below(8);
         let mut files = vec![];
         let mut unit = "";
@@ -156,6 +176,13 @@ impl Prop for PNum {
             n = json!({"v": pickn});
             let key = format!("{}|{}|{}", prim, unit, serde_json::to_string(&files).unwrap());
             self.cache.insert(key, dir);
+        } else if is_time(prim) {
+            // ages in whole periods, also below zero (timestamps in the future)
+            for _ in 0..nf {
+                files.push(json!({"v": rng.range(-2, 6)}));
+            }
+            let fv = files[rng.below(files.len())]["v"].as_i64().unwrap();
+            n = json!({"v": (fv + rng.range(-1, 1)).max(0)});
         } else {
             for _ in 0..nf {
                 files.push(json!({"v": if prim == "links" { 1 + rng.below(5) } else if rng.chance(1, 3) { rng.below(3) } else { rng.below(70000) }}));
